@@ -88,7 +88,7 @@ def gen(rng, i, tier):
         if key == "FREEZES" and (kind != "SM" or rng.random() < 0.6):
             continue
         if st != "absent":
-            sf.append([key, "" if st == "empty" else (rng.choice(["0.5", "0.5", ".5", "-.25", "5e-3", "+1.5", " 0.125\n", "-1.25E-2"]) if key == "OFFSET" else "2.000=0.750")])
+            sf.append([key, "" if st == "empty" else (rng.choice(["0.5", "0.5", ".5", "-.25", "5e-3", "+1.5", " 0.125\n", "-1.25E-2", "soon"]) if key == "OFFSET" else rng.choice(["2.000=0.750", "2.000=0.750", "16.000=0.250,", "tba", "4=1=2"]))])
     d = rand_dbpm(rng)
     if rng.random() < 0.7:
         sf.append(["DISPLAYBPM", d])
@@ -255,6 +255,14 @@ def oracle(c, o):
             return None
         if o["td"][1] != want:
             return "TimingData mixes sources or misreads a field: %s vs %s" % (str(o["td"][1])[:300], str(want)[:300])
+    if o["displaybpm"][0] != "ok":
+        try:
+            ok_bpms = bool(src.get("BPMS")) and all(len(r.split("=")) == 2 and Decimal(r.split("=")[1].strip()) is not None and Decimal(r.split("=")[0].strip()) is not None
+                                                    for r in src.get("BPMS").split(","))
+        except Exception:
+            ok_bpms = False
+        if ok_bpms:
+            return "displaybpm raised (%s) although the source's BPMS is well-formed: the displayed BPM depends on DISPLAYBPM and BPMS only" % (o["displaybpm"][1],)
     if o["displaybpm"][0] == "ok":
         d = src.get("DISPLAYBPM")
         want = None
